@@ -372,6 +372,18 @@ pub fn thread_script(run: u64, dir: &Path, events: &[Event]) -> Vec<Value> {
                     drop(tx);
                     futures::executor::block_on(tokio::task::unconstrained(end));
                     let _ = std::fs::copy(&snap, &path);
+                    if rng.below(2) == 0 {
+                        // the crash hit in the middle of a prune: a complete or half-written `<journal>.tmp` is left behind
+                        let mut tmp_path: std::ffi::OsString = path.clone().into();
+                        tmp_path.push(".tmp");
+                        let _ = std::fs::copy(&snap, std::path::PathBuf::from(&tmp_path));
+                        if rng.below(2) == 0 {
+                            if let Ok(f) = std::fs::OpenOptions::new().write(true).open(std::path::PathBuf::from(&tmp_path)) {
+                                let len = f.metadata().map(|m| m.len()).unwrap_or(0);
+                                let _ = f.set_len(len - len / 3);
+                            }
+                        }
+                    }
                     // as start_server does: the restorer reads the journal and tells where a torn tail begins
                     let r = restore_file(&path);
                     let trunc = if r["ok"].as_bool() == Some(true) {
